@@ -108,6 +108,15 @@ def replay(ch, scns, outs, prop_hooks, fam):
                     keys = conn.SessionKeys(res["session"], bs)
                     sessions.append((si, ti, keys))
                 continue
+            if step["op"] == "close" and keys is not None and res.get("sent") is not None:
+                # Session.Close: the model's session_close decides operation and request (the BMC's session ID)
+                ivs = ",".join(s[32:64] for s in res["sent"]) or "."
+                model_lines.append("ssclose %d %s %s %d %d %d %s %s" % (keys.integ, keys.k1, keys.k2[:32], keys.local, keys.remote, keys.seq,
+                                                                        ivs, conn.script_arg(res["delivered"])))
+                index.append((si, ti, keys, keys.seq))
+                keys.seq += len(res["sent"])
+                keys = None
+                continue
             if step["op"] != "cmd":
                 continue
             sess = step.get("conn") == "session"
@@ -129,6 +138,14 @@ def replay(ch, scns, outs, prop_hooks, fam):
     for (si, ti, keys, seq0), ml in zip(index, model):
         scn, out = scns[si], outs[si]
         step, res = scn["steps"][ti], out["steps"][ti]
+        if step["op"] == "close":
+            ch.note_case(fam + "-close", "%s|%s" % (step.get("script"), scn["bmc"]["suites"]))
+            if res.get("panic"):
+                ch.violation({"kind": "panic", "conn": "session", "cmd": "close"}, {"step": step, "panic": res["panic"], "scenario": scn})
+            elif conn.parse_loop(ml)["sent"] != res["sent"]:
+                ch.corr_break({"kind": fam, "conn": "session", "cmd": "close"},
+                              {"scenario": scn, "step_index": ti, "impl": res["sent"], "model": ml, "why": ["datagrams sent by Close() differ"]})
+            continue
         sess = step.get("conn") == "session"
         desc = {"kind": fam, "conn": "session" if sess else "sessionless", "cmd": step["cmd"]["name"], "script": step["script"]}
         ch.note_case(fam + ("-session" if sess else "-sessionless"), "%s|%s|%s" % (step["cmd"], step["script"], scn["bmc"]["suites"]),
